@@ -239,7 +239,9 @@ def run_nesting(spec, rec, dadi, models):
 
 def run_symmetry(spec, rec, dadi, models):
     from dadi import Integration
-    for si_, (name, perm) in enumerate(SYMMETRY):
+    for si_, entry in enumerate(SYMMETRY):
+        name, perm = entry[0], entry[1]
+        axes = tuple(entry[2]) if len(entry) > 2 else (1, 0)
         if si_ % spec["nb"] != spec["b"] or name not in models:
             continue
         f = models[name]
@@ -256,8 +258,8 @@ def run_symmetry(spec, rec, dadi, models):
                     env[n] = float(rng.uniform(0.3, 3))
             p = [env[n] for n in names]
             ps = [eval_expr(e, env) for e in perm]
-            ns = [int(rng.integers(3, 6)), int(rng.integers(3, 6))]
-            pts = 14
+            ns = [int(rng.integers(3, 6)) for _ in axes] if len(axes) == 2 else [int(rng.integers(2, 4)) for _ in axes]
+            pts = 14 if len(axes) == 2 else 10
             if not rec.case("sym-%d-%d" % (si_, rep), {"model": name, "params": env, "ns": ns}, nontrivial=True):
                 continue
             tags = {"model": name}
@@ -267,7 +269,7 @@ def run_symmetry(spec, rec, dadi, models):
                 for tf in (1e-3, 2.5e-4, 6.25e-5):
                     Integration.timescale_factor = tf
                     a = np.asarray(f(p, ns, pts).data, float)
-                    b = np.asarray(f(ps, ns[::-1], pts).data, float).T
+                    b = np.transpose(np.asarray(f(ps, [ns[a] for a in axes], pts).data, float), np.argsort(axes))
                     k = np.ones(a.shape, bool)
                     k.flat[0] = k.flat[-1] = False
                     errs.append(relerr(b[k], a[k]))
